@@ -157,12 +157,13 @@ theorem mapLocs_le {rec rec' : LHeap → MLoc → Option (MLoc × LHeap)}
   obtain ⟨h', h1, h2⟩ := Option.map_eq_some_iff.1 he
   exact Option.map_eq_some_iff.2 ⟨h', mapLoop2_le hrec _ _ _ _ _ _ h1, h2⟩
 
-/-- more fuel never changes the answer of `Expand` -/
-theorem expandMem_le (g : Grow) (i n : Int) : ∀ k k', k ≤ k' → ∀ h m r,
-    expandMem g i n k h m = some r → expandMem g i n k' h m = some r := by
+/-- more fuel never changes the answer of the common shape of `Expand` / `Shift` / `Normalize` -/
+theorem methMem_le (g : Grow) {leafM : Nat → LHeap → Loc → Option (MLoc × LHeap)}
+    (hleaf : ∀ k k', k ≤ k' → ∀ h l r, leafM k h l = some r → leafM k' h l = some r) :
+    ∀ k k', k ≤ k' → ∀ h m r, methMem leafM g k h m = some r → methMem leafM g k' h m = some r := by
   intro k
   induction k with
-  | zero => intro k' _ h m r he; simp [expandMem] at he
+  | zero => intro k' _ h m r he; simp [methMem] at he
   | succ k ih =>
     intro k' hk h m r he
     cases k' with
@@ -170,19 +171,68 @@ theorem expandMem_le (g : Grow) (i n : Int) : ∀ k k', k ≤ k' → ∀ h m r,
     | succ k' =>
       have hk' : k ≤ k' := by omega
       cases m with
-      | leaf l => simpa [expandMem] using he
+      | leaf l => simp only [methMem] at he ⊢; exact hleaf k k' hk' h l r he
       | joined s =>
-        simp only [expandMem] at he ⊢
+        simp only [methMem] at he ⊢
         obtain ⟨r1, h1, h2⟩ := Option.bind_eq_some_iff.1 he
         exact Option.bind_eq_some_iff.2 ⟨r1, mapLocs_le (ih k' hk') h1, joinLocs_le g (by omega) h2⟩
       | ordered s =>
-        simp only [expandMem] at he ⊢
+        simp only [methMem] at he ⊢
         obtain ⟨r1, h1, h2⟩ := Option.bind_eq_some_iff.1 he
         exact Option.bind_eq_some_iff.2 ⟨r1, mapLocs_le (ih k' hk') h1, orderLocs_le g (by omega) h2⟩
       | compl m =>
-        simp only [expandMem] at he ⊢
+        simp only [methMem] at he ⊢
         obtain ⟨r1, h1, h2⟩ := Option.map_eq_some_iff.1 he
         exact Option.map_eq_some_iff.2 ⟨r1, ih k' hk' _ _ _ h1, h2⟩
+
+/-- more fuel never changes the answer of `Expand` -/
+theorem expandMem_le (g : Grow) (i n : Int) : ∀ k k', k ≤ k' → ∀ h m r,
+    expandMem g i n k h m = some r → expandMem g i n k' h m = some r :=
+  methMem_le g fun _ _ _ _ _ _ he => he
+
+theorem shiftLeaf_le (g : Grow) (i n : Int) : ∀ k k', k ≤ k' → ∀ h l r,
+    shiftLeaf g i n k h l = some r → shiftLeaf g i n k' h l = some r := by
+  intro k k' hk h l r he
+  cases l with
+  | ranged s e p5 p3 =>
+    simp only [shiftLeaf] at he ⊢
+    by_cases hc : 0 < n ∧ s < i ∧ i < e
+    · rw [if_pos hc] at he ⊢; exact joinLocs_le g hk he
+    · rw [if_neg hc] at he ⊢; exact he
+  | ambiguous s e =>
+    simp only [shiftLeaf] at he ⊢
+    by_cases hc : 0 < n ∧ s < i ∧ i < e
+    · rw [if_pos hc] at he ⊢; exact orderLocs_le g hk he
+    · rw [if_neg hc] at he ⊢; exact he
+  | between p => exact he
+  | point p => exact he
+  | joined ls => exact he
+  | ordered ls => exact he
+  | compl l => exact he
+
+theorem shiftMem_le (g : Grow) (i n : Int) : ∀ k k', k ≤ k' → ∀ h m r,
+    shiftMem g i n k h m = some r → shiftMem g i n k' h m = some r :=
+  methMem_le g (shiftLeaf_le g i n)
+
+theorem normalizeLeaf_le (g : Grow) (len : Int) : ∀ k k', k ≤ k' → ∀ h l r,
+    normalizeLeaf g len k h l = some r → normalizeLeaf g len k' h l = some r := by
+  intro k k' hk h l r he
+  cases l with
+  | ranged s e p5 p3 =>
+    simp only [normalizeLeaf] at he ⊢
+    by_cases hc : e - s ≠ len ∧ ¬ (Int.tmod s len < Int.tmod (e - 1) len + 1)
+    · rw [if_pos hc] at he ⊢; exact joinLocs_le g hk he
+    · rw [if_neg hc] at he ⊢; exact he
+  | ambiguous s e => exact he
+  | between p => exact he
+  | point p => exact he
+  | joined ls => exact he
+  | ordered ls => exact he
+  | compl l => exact he
+
+theorem normalizeMem_le (g : Grow) (len : Int) : ∀ k k', k ≤ k' → ∀ h m r,
+    normalizeMem g len k h m = some r → normalizeMem g len k' h m = some r :=
+  methMem_le g (normalizeLeaf_le g len)
 
 /-! ### `Push`, `Join` have an answer on readable values -/
 
@@ -447,35 +497,83 @@ theorem mapLocs_total {R : Nat → LHeap → MLoc → Option (MLoc × LHeap)}
   unfold mapLocs
   exact Option.map_eq_some_iff.2 ⟨r, by simpa [hlen] using e, rfl⟩
 
-/-- **`Expand` has a result on every readable receiver** -/
-theorem expandMem_total (g : Grow) (i n : Int) :
-    ∀ l h m, Reads h l m → ∃ k r, expandMem g i n k h m = some r := by
+/-- the common shape of `Expand` / `Shift` / `Normalize` has a result on every readable receiver,
+given that the method of the contiguous kinds has -/
+theorem methMem_total (g : Grow) {leafM : Nat → LHeap → Loc → Option (MLoc × LHeap)} {F : Loc → Loc}
+    (hle : ∀ k k', k ≤ k' → ∀ h l r, leafM k h l = some r → leafM k' h l = some r)
+    (hfresh : ∀ k, MapFresh (methMem leafM g k)) (href : ∀ k, MapRefines (methMem leafM g k) F)
+    (hleaf : ∀ h l, isContig l = true → ∃ k r, leafM k h l = some r) :
+    ∀ l h m, Reads h l m → ∃ k r, methMem leafM g k h m = some r := by
   refine loc_induction ?_ ?_ ?_ ?_
   · intro l hl h m hr
     rw [reads_contig hl] at hr
     subst hr
-    exact ⟨1, _, rfl⟩
+    obtain ⟨k, r, e⟩ := hleaf h l hl
+    exact ⟨k + 1, r, by simpa [methMem] using e⟩
   · intro ls ih h m hr
     obtain ⟨s, rfl, hw, hl⟩ := reads_joined.1 hr
-    obtain ⟨k1, r1, e1⟩ := mapLocs_total (expandMem_le g i n) (expandMem_fresh g i n) hw hl ih
-    have p1 := mapLocs_refines (expandMem_fresh g i n k1) (expandMem_refines g i n k1) hw hl e1
+    obtain ⟨k1, r1, e1⟩ := mapLocs_total (methMem_le g hle) hfresh hw hl ih
+    have p1 := mapLocs_refines (hfresh k1) (href k1) hw hl e1
     obtain ⟨k2, r2, e2⟩ := joinLocs_total g p1.2.1 p1.2.2
     refine ⟨max k1 k2 + 1, r2, ?_⟩
-    simp only [expandMem]
-    exact Option.bind_eq_some_iff.2 ⟨r1, mapLocs_le (expandMem_le g i n k1 _ (Nat.le_max_left ..)) e1,
+    simp only [methMem]
+    exact Option.bind_eq_some_iff.2 ⟨r1, mapLocs_le (methMem_le g hle k1 _ (Nat.le_max_left ..)) e1,
       joinLocs_le g (by omega) e2⟩
   · intro ls ih h m hr
     obtain ⟨s, rfl, hw, hl⟩ := reads_ordered.1 hr
-    obtain ⟨k1, r1, e1⟩ := mapLocs_total (expandMem_le g i n) (expandMem_fresh g i n) hw hl ih
-    have p1 := mapLocs_refines (expandMem_fresh g i n k1) (expandMem_refines g i n k1) hw hl e1
+    obtain ⟨k1, r1, e1⟩ := mapLocs_total (methMem_le g hle) hfresh hw hl ih
+    have p1 := mapLocs_refines (hfresh k1) (href k1) hw hl e1
     obtain ⟨k2, r2, e2⟩ := orderLocs_total g p1.2.1 p1.2.2
     refine ⟨max k1 k2 + 1, r2, ?_⟩
-    simp only [expandMem]
-    exact Option.bind_eq_some_iff.2 ⟨r1, mapLocs_le (expandMem_le g i n k1 _ (Nat.le_max_left ..)) e1,
+    simp only [methMem]
+    exact Option.bind_eq_some_iff.2 ⟨r1, mapLocs_le (methMem_le g hle k1 _ (Nat.le_max_left ..)) e1,
       orderLocs_le g (by omega) e2⟩
   · intro l ih h m hr
     obtain ⟨m', rfl, hl⟩ := reads_compl.1 hr
     obtain ⟨k, r, e⟩ := ih h m' hl
-    exact ⟨k + 1, (.compl r.1, r.2), by simp [expandMem, e]⟩
+    exact ⟨k + 1, (.compl r.1, r.2), by simp [methMem, e]⟩
+
+/-- **`Expand` has a result on every readable receiver** -/
+theorem expandMem_total (g : Grow) (i n : Int) :
+    ∀ l h m, Reads h l m → ∃ k r, expandMem g i n k h m = some r :=
+  methMem_total g (fun _ _ _ _ _ _ he => he) (expandMem_fresh g i n) (expandMem_refines g i n)
+    (fun _ _ _ => ⟨0, _, rfl⟩)
+
+theorem lit_join_total (g : Grow) (h : LHeap) (ls : List Loc) (hc : ∀ c ∈ ls, isContig c = true) :
+    ∃ k r, joinLocs g k (litSlice h (ls.map MLoc.leaf)).2 (litSlice h (ls.map MLoc.leaf)).1 = some r := by
+  have o := litSlice_owned (List.prefix_refl h) (ls.map MLoc.leaf)
+  exact joinLocs_total g o.wf (by rw [o.rd]; exact readsList_leaves ls hc)
+
+theorem lit_order_total (g : Grow) (h : LHeap) (ls : List Loc) (hc : ∀ c ∈ ls, isContig c = true) :
+    ∃ k r, orderLocs g k (litSlice h (ls.map MLoc.leaf)).2 (litSlice h (ls.map MLoc.leaf)).1 = some r := by
+  have o := litSlice_owned (List.prefix_refl h) (ls.map MLoc.leaf)
+  exact orderLocs_total g o.wf (by rw [o.rd]; exact readsList_leaves ls hc)
+
+/-- **`Shift` has a result on every readable receiver** -/
+theorem shiftMem_total (g : Grow) (i n : Int) :
+    ∀ l h m, Reads h l m → ∃ k r, shiftMem g i n k h m = some r :=
+  methMem_total g (shiftLeaf_le g i n) (shiftMem_fresh g i n) (shiftMem_refines g i n) (by
+    intro h l _
+    unfold shiftLeaf
+    split
+    · split
+      · exact lit_join_total g h [_, _] (by simp [isContig])
+      · exact ⟨0, _, rfl⟩
+    · split
+      · exact lit_order_total g h [_, _] (by simp [isContig])
+      · exact ⟨0, _, rfl⟩
+    · exact ⟨0, _, rfl⟩)
+
+/-- **`Normalize` has a result on every readable receiver** -/
+theorem normalizeMem_total (g : Grow) (len : Int) :
+    ∀ l h m, Reads h l m → ∃ k r, normalizeMem g len k h m = some r :=
+  methMem_total g (normalizeLeaf_le g len) (normalizeMem_fresh g len) (normalizeMem_refines g len) (by
+    intro h l _
+    unfold normalizeLeaf
+    split
+    · split
+      · exact lit_join_total g h [_, _] (by simp [isContig])
+      · exact ⟨0, _, rfl⟩
+    · exact ⟨0, _, rfl⟩)
 
 end Gts.Mem
